@@ -107,6 +107,9 @@ type Plan struct {
 	Tape     []uint32      `json:"tape,omitempty"`
 	Order    []int         `json:"order,omitempty"` // C19: turn order over tasks
 	Lazy     bool          `json:"lazy_drain,omitempty"` // goroutines left behind by a call keep running during later calls
+	// Replayed: every entropy source of this history delivers the same 32 bytes (a deterministic
+	// source, legal input): identical signing events legitimately share their identifier
+	Replayed bool `json:"replayed_entropy,omitempty"`
 }
 
 func (p *Plan) JSON() []byte {
